@@ -751,7 +751,17 @@ func binary(p *Parser, left Expr) (Expr, error) {
 	}
 	opToken := *p.previous
 
-	expr, err := p.expressionWithPrec(p.rule(opToken.Tag).prec)
+	prec := p.rule(opToken.Tag).prec
+	switch opToken.Tag {
+	case PlusEqual, MinusEqual, MultiplyEqual, DivideEqual:
+		// compound assignments are right-associative, like =
+	default:
+		// everything else is left-associative, so the right operand must bind
+		// tighter than the operator itself
+		prec++
+	}
+
+	expr, err := p.expressionWithPrec(prec)
 	if err != nil {
 		return nil, err
 	}
